@@ -114,7 +114,7 @@ package leanhelix
 //@   inv [O8.the-installed-term-is-wired-to-this-filter] (lh.filter.consensusMessagesHandler != nil ==> TermWired(dyn(lh.filter.consensusMessagesHandler, *leanhelixterm.LeanHelixTerm), lh.filter))
 //@   assert before call onNewConsensusRoundCallback [O13.the-host-is-told-the-new-height-the-previous-block-and-the-first-leader-flag] $newHeight == lh.state.height && $prevBlock == prevBlock && $canBeFirstLeader == canBeFirstLeader
 //@   assert before call NewLeanHelixTerm [O14.the-new-term-is-built-on-the-block-and-proof-handed-in] $prevBlock == prevBlock && $prevBlockProofBytes == prevBlockProofBytes && $canBeFirstLeader == canBeFirstLeader && $state == lh.state && $config == lh.config && $electionTrigger == lh.electionTrigger
-//@   props C13 C14 C17
+//@   props C13 C14 C17 C16
 //@   requires lh.state != nil && lh.filter != nil && lh.filter.state == lh.state && lh.filter.futureCache != nil && lh.state.Contexts != nil
 //@   requires [A-NONNIL.the-configured-spi-objects-are-present] lh.config != nil && lh.config.KeyManager != nil && lh.config.BlockUtils != nil && lh.config.Membership != nil && lh.config.Communication != nil && lh.electionTrigger != nil
 //@   requires [A-KM-SIGN] SignsAs(lh.config.KeyManager, lh.config.Membership.MyMemberId())
@@ -129,6 +129,9 @@ package leanhelix
 //@     | ==> lh.state.height > blockheight.GetBlockHeight(prevBlock)
 //@   ensures [O13.6.commits-stay-below-state] lastCommitHeight <= lh.state.height && lastCommitHeight >= old(lastCommitHeight)
 //@   ensures [frame] lh.state == old(lh.state) && lh.filter == old(lh.filter) && lh.filter.state == lh.state && lh.filter.futureCache == old(lh.filter.futureCache) && lh.state.Contexts == old(lh.state.Contexts) && ndelivered >= 0
+// C16: a term that was started (its election timer is armed by then) is the term the worker holds, so that shutdown and the
+// next round dispose it; a term built and then dropped would leave its timer armed for good
+//@   ensures [O16.the-term-of-a-round-that-was-entered-is-held-by-the-worker] lh.state.height > old(lh.state.height) ==> lh.leanHelixTerm != nil
 
 //@ func (*WorkerLoop).onCommit
 //@   inv [O17.the-installed-term-is-the-term-of-the-current-height] (lh.filter.consensusMessagesHandler != nil ==> TermHeightOf(dyn(lh.filter.consensusMessagesHandler, *leanhelixterm.LeanHelixTerm)) == lh.state.height)
